@@ -1,0 +1,13 @@
+//go:build verif
+
+package vaxis
+
+import "git.sr.ht/~rockorager/vaxis/ansi"
+
+// Verification hooks for property C09/C13 (build tag `verif` only; no behaviour change).
+
+// VerifC09DecodeKey exposes decodeKey.
+func VerifC09DecodeKey(seq ansi.Sequence) Key { return decodeKey(seq) }
+
+// VerifC09ParseMouseEvent exposes parseMouseEvent.
+func VerifC09ParseMouseEvent(seq ansi.CSI) (Mouse, bool) { return parseMouseEvent(seq) }
